@@ -53,7 +53,7 @@ ASSUMPTIONS = [
 
 logging.disable(logging.CRITICAL)
 
-VARS = {'A$': b'O3E', 'L%': 8}
+VARS = {'A$': b'O3E', 'L%': 8, 'B!': 40000.0, 'H!': 2.5}
 PTR_STR = b'\x03\x00\x00'
 PTR_INT = b'\x02\x00\x00'
 
@@ -68,6 +68,8 @@ TOKENS = [
     (b'<', '<'), (b'>', '>'), (b'MN', 'M'), (b'ML', 'M'), (b'MS', 'M'),
     (b'P4', 'P'), (b'P1.', 'P'), (b'P', 'badP'),
     (b'XA$;', 'X'), (b'X' + PTR_STR, 'Xptr'), (b'L=L%;', '=var'), (b'L=' + PTR_INT, '=ptr'),
+    # a single beyond the 16-bit range (Illegal function call like any other bad length, not Overflow) and one at .5
+    (b'L=B!;', 'bad'), (b'L=H!;', '=var'),
     (b' ', 'blank'), (b';', 'sep'), (b'Q', 'bad'), (b'E#', 'bad'), (b'MZ', 'bad'), (b'N', 'badN'),
 ]
 
@@ -191,7 +193,7 @@ def run_case(s, part, leg, ref_strings, classes, case, spell=None):
     q = s._impl.queues.audio
     spell = spell or (lambda b: b)
     exprs = b','.join(real_expr(spell(b'MB' + r)) if i == 0 else real_expr(spell(r)) for i, r in enumerate(ref_strings))
-    stmt = b'CLEAR:A$="%s":L%%=%d:PLAY %s' % (VARS['A$'], VARS['L%'], exprs)
+    stmt = b'CLEAR:A$="%s":L%%=%d:B!=%d:H!=2.5:PLAY %s' % (VARS['A$'], VARS['L%'], int(VARS['B!']), exprs)
     q.drain()
     try:
         r = H.run(s, stmt)
